@@ -127,6 +127,13 @@ def cellOfTok (t : String) : Except String Cell := do
         let z ← hexDecode z.toList
         pure (.time { unix := u, ns := ns.toNat, off := off, y := y, mo := mo, d := d, h := h, mi := mi, s := s, zone := z })
       | _ => throw s!"bad time cell {t}"
+    | 'U' => do
+      -- a cell of a Go type outside the scalar domain (say a whole []any stored in one cell). The harness never
+      -- generates such inputs, so it can only be an implementation OUTPUT; it is decoded as a value that no
+      -- expected frame contains (a time with month 99 carrying the Go type name), so every comparison with
+      -- the specification fails on it and the case is reported with its input
+      let s ← hexDecode body.toList
+      pure (.time { unix := 0, ns := 0, off := 0, y := 0, mo := 99, d := 0, h := 0, mi := 0, s := 0, zone := s })
     | _ => throw s!"unknown cell {t}"
 
 def pCell : P Cell := do
